@@ -84,6 +84,118 @@ func laneSet(p refnum.Param) []uint64 {
 	return s
 }
 
+// ---- structured sets for one-operand instructions ----
+
+func fracPatterns(n uint, step uint) []uint64 {
+	all := uint64(1)<<n - 1
+	v := []uint64{0, 1, 2, 3, 1 << (n - 1), 1<<(n-1) - 1, 1<<(n-1) + 1, 1 << (n - 2), 3 << (n - 2), all, all - 1,
+		0x5555555555555555 & all, 0xaaaaaaaaaaaaaaaa & all}
+	for k := uint(0); k < n; k += step {
+		v = append(v, 1<<k, all&^(1<<k-1)) // a single fraction bit; the bits from k upwards
+	}
+	return v
+}
+
+// structFloat: every sign x (every / the interesting) exponent x fraction patterns.
+func structFloat(frac, ebits uint, trapping bool) []uint64 {
+	key := "sf" + string(rune('0'+frac/8)) + map[bool]string{true: "t", false: "n"}[trapping]
+	if s, ok := setCache[key]; ok {
+		return s
+	}
+	emax := uint64(1)<<ebits - 1
+	bias := emax / 2
+	var exps []uint64
+	if trapping { // most exponents beyond 2^64 only repeat the same trap
+		exps = []uint64{0, 1, 2, emax - 2, emax - 1, emax, bias + 100, bias + 127}
+		for e := bias - 3; e <= bias+66; e++ {
+			if e > bias+34 && e < bias+61 { // between the 32- and 64-bit ranges nothing changes
+				continue
+			}
+			exps = append(exps, e)
+		}
+	} else {
+		for e := uint64(0); e <= emax; e++ {
+			exps = append(exps, e)
+		}
+	}
+	step := uint(1)
+	if frac > 32 {
+		step = 2
+	}
+	var out []uint64
+	for _, e := range exps {
+		for _, f := range fracPatterns(frac, step) {
+			b := e<<frac | f
+			out = append(out, b, b|1<<(frac+ebits))
+		}
+	}
+	setCache[key] = out
+	return out
+}
+
+// structInt: single bits, runs, and values whose conversion to f32/f64 rounds (round and sticky
+// bit combinations at every shift).
+func structInt(bits uint) []uint64 {
+	key := "si" + string(rune('0'+bits/8))
+	if s, ok := setCache[key]; ok {
+		return s
+	}
+	m := ^uint64(0)
+	if bits < 64 {
+		m = 1<<bits - 1
+	}
+	seen := map[uint64]bool{}
+	var out []uint64
+	add := func(x uint64) {
+		x &= m
+		if !seen[x] {
+			seen[x] = true
+			out = append(out, x)
+		}
+	}
+	for k := uint(0); k < bits; k++ {
+		b := uint64(1) << k
+		for _, x := range []uint64{b, b - 1, b + 1, ^b, b | 1, ^(b - 1), b | b>>1, b - 2, b + 2} {
+			add(x)
+			add(-x)
+		}
+		// 24/25/53/54-bit significands with round (and sticky) bits, shifted to every position
+		for _, sig := range []uint64{0xffffff, 0x1000001, 0x1000003, 0x1fffffe, 0x1ffffff, 0x1000002, 0x1000006, 0x2000001, 0x3000001, 0x2fffffd,
+			0x1fffffffffffff, 0x20000000000001, 0x20000000000003, 0x3ffffffffffffe, 0x3fffffffffffff, 0x20000000000002, 0x20000000000006, 0x40000000000001, 0x60000000000001} {
+			add(sig << k)
+			add(-(sig << k))
+			add(sig<<k | 1)
+		}
+	}
+	setCache[key] = out
+	return out
+}
+
+// bigSet is the lane set for one-operand instructions.
+func bigSet(op *refnum.Op, p refnum.Param) []uint64 {
+	small := laneSet(p)
+	if fb, isF := fracBits(p); isF {
+		eb := uint(8)
+		if fb == 52 {
+			eb = 11
+		}
+		return append(append([]uint64{}, small...), structFloat(fb, eb, op.MayTrap)...)
+	}
+	switch {
+	case p.S == refnum.SInt && (p.T == refnum.I32 || p.T == refnum.I64), p.S == refnum.SI32x4, p.S == refnum.SI64x2:
+		bits := uint(64)
+		if p.T == refnum.I32 || p.S == refnum.SI32x4 {
+			bits = 32
+		}
+		return append(append([]uint64{}, small...), structInt(bits)...)
+	case p.S == refnum.SInt && p.T == refnum.F32: // reinterpret / splat of float bits
+		return append(append([]uint64{}, small...), structFloat(23, 8, false)...)
+	case p.S == refnum.SInt && p.T == refnum.F64:
+		return append(append([]uint64{}, small...), structFloat(52, 11, false)...)
+	}
+	return small
+}
+
 // ---- vector lists ----
 
 // packed packs the values into vectors of `bits`-wide lanes: lane (l+rot)%L of vector j holds
@@ -182,13 +294,16 @@ func (b block) size() int {
 
 // unaryList is the deterministic operand list of a one-operand instruction (or of one operand
 // seen alone).
-func unaryList(p refnum.Param, exhaustive16 bool) []V {
+func unaryList(op *refnum.Op, p refnum.Param, exhaustive16 bool) []V {
+	set := laneSet(p)
+	if op != nil {
+		set = bigSet(op, p)
+	}
 	if p.T != refnum.V128 {
-		return scalars(laneSet(p))
+		return scalars(set)
 	}
 	bits := p.S.LaneBits()
 	L := 128 / bits
-	set := laneSet(p)
 	var out []V
 	switch {
 	case bits == 8:
@@ -219,7 +334,7 @@ func blocksFor(op *refnum.Op) []block {
 	}
 	switch len(ps) {
 	case 1:
-		return []block{{lim(unaryList(ps[0], true), 96)}}
+		return []block{{lim(unaryList(op, ps[0], true), 96)}}
 	case 3: // v128.bitselect
 		a := cat(sample(packed(laneSet(ps[0]), 64, 0), 20), specials(8)[:8])
 		return []block{{a, a, a}}
@@ -232,10 +347,10 @@ func blocksFor(op *refnum.Op) []block {
 		if op.Imm == refnum.ImmNone && p0.S == refnum.SI16x8 { // i16x8 shifts: every value x every count
 			return []block{{cat(packed(all16(), 16, 0), specials(16)), scalars(laneSet(p1))}}
 		}
-		return []block{{lim(unaryList(p0, false), 48), lim(scalars(laneSet(p1)), 48)}}
+		return []block{{lim(unaryList(nil, p0, false), 48), lim(scalars(laneSet(p1)), 48)}}
 	case op.Name == "i8x16.swizzle":
 		data := cat(packed(laneSet(p0), 8, 0), specials(8)[:4])
-		idx := cat(splats(laneSet(p1), 8), unaryList(p1, false)[:256])
+		idx := cat(splats(laneSet(p1), 8), unaryList(nil, p1, false)[:256])
 		return []block{{data, idx}}
 	case op.Name == "i8x16.shuffle":
 		a := cat(sample(packed(laneSet(p0), 8, 0), 8), specials(8)[2:4])
